@@ -20,6 +20,7 @@ inductive Op
   | refresh (q : RefreshReq)
   | revoke (q : RevokeReq)
   | introspect (q : IntrospectReq)
+  | introspectEndpoint (q : IntrospectEndpointReq)
   | clientCredentials (q : DirectReq)
   | password (q : DirectReq)
   | deviceAuthorize (q : DeviceAuthReq)
@@ -39,6 +40,7 @@ def Op.prog (s : MState) : Op → Option (Prog Out)
   | .refresh q => some (refreshProg s.cfg s.now q)
   | .revoke q => some (revokeProg q)
   | .introspect q => some (introspectProg s.cfg s.now q)
+  | .introspectEndpoint q => some (introspectEndpointProg s.cfg s.now q)
   | .clientCredentials q => some (clientCredentialsProg s.cfg s.now q)
   | .password q => some (passwordProg s.cfg s.now q)
   | .deviceAuthorize q => some (deviceAuthProg s.cfg s.now q)
